@@ -1593,7 +1593,8 @@ class MultiUserChannelMatrix:  # pylint: disable=R0902
         if N0_or_Rek is None:
             N0_or_Rek = 0.0
 
-        if isinstance(N0_or_Rek, Number):
+        if isinstance(N0_or_Rek, Number) or np.ndim(N0_or_Rek) == 0:
+            # A number: python or numpy scalar, or a 0-dimensional array
             noise_power = N0_or_Rek
             # noinspection PyUnresolvedReferences
             Rek = (noise_power * np.eye(self.Nr[k]))
